@@ -136,7 +136,7 @@ pub fn format_current_ds(
         Some(Unit::Nanoseconds),
         vec![Measurement {
             labels: labels.clone(),
-            value: current_ds.offset_from_master.seconds(),
+            value: current_ds.offset_from_master.nanos_lossy(),
         }],
     )?;
 
@@ -148,7 +148,7 @@ pub fn format_current_ds(
         Some(Unit::Nanoseconds),
         vec![Measurement {
             labels: labels.clone(),
-            value: current_ds.mean_delay.seconds(),
+            value: current_ds.mean_delay.nanos_lossy(),
         }],
     )?;
 
